@@ -2,4 +2,4 @@ From Coq Require Import ExtrOcamlBasic NArith List.
 From LV Require Import lib.Conv lib.Bytes lib.Lex lib.SortedMap spec.KvSpec spec.KvOps spec.KvStackSpec
   model.PrefixRange model.Table model.Flushable model.KvStack.
 Extraction "model.ml" conv_roots run_op spec_run_op compact_ok ideal_batch_size inc_prefix
-  has_prefix lex_compare sview sh_view h_view uniq_check table_tags incomparable_all stack_lsafe.
+  has_prefix lex_compare sview sh_view h_view uniq_check table_tags incomparable_all stack_lsafe migrate_tables.
